@@ -16,6 +16,7 @@ RULE = (
     "additionally a collection filled by a live model of that type across two add_observations calls (2 samples before, 2 after; and the concatenation of the two halves) is saved and reloaded; refusals: add beyond size, get_theta(-1/len), saving an empty holder. Non-trivial = (>=2 chains and a chain with >=10 samples) or a value that changes "
     "under float32. distinct = distinct case JSON."
     ' Also: fixed cases in which the collection is written, read and re-written by separate interpreter processes.'
+    ' A third of the CLI cases name every chain file thetas.h5 in a directory of its own; in a fifth of the cases every fourth write request of one save fails in turn with ENOSPC.'
 )
 ASSUMPTIONS = [
     "NaN parameters are not generated (NaN payload equality through HDF5 is not part of the claim); magnitudes <= 1e100 so predictions stay finite",
@@ -234,7 +235,9 @@ def check_case(case):
         with np.errstate(all="ignore"):
             for ci, h in enumerate(holders):
                 # in half the cases the chain files lie in directories whose names hold glob characters, spaces or non-ASCII letters
-                p = tmp.fresh("thetas_%d.h5" % ci, odd=(case["order_seed"] // 3 + ci) if case["order_seed"] % 2 else None)
+                # ... and in a third of the cases every chain file is called thetas.h5 and lies in a directory of its own
+                same_name = case["order_seed"] % 3 == 1
+                p = tmp.fresh("thetas.h5" if same_name else "thetas_%d.h5" % ci, odd=(case["order_seed"] // 3 + ci) if case["order_seed"] % 2 else None, own_dir=same_name)
                 paths.append(p)
                 if ci > 0:
                     holders[ci - 1].save_h5(p)  # the path already holds another chain: saving replaces it
@@ -259,6 +262,23 @@ def check_case(case):
                 l2 = ThetaHolder.load_h5(p2)
                 require(len(l2.thetas) == len(h.thetas) and all(_same_theta(a, b) is None for a, b in zip(h.thetas, l2.thetas)), "roundtrip.fixed_point", "second save/load changed the collection")
 
+            if case["order_seed"] % 5 == 0:
+                # one collection saved with a storage failure injected into each of its write requests in turn, over an older
+                # archive: a save that returns normally has saved
+                from vf import iofault
+
+                def fault_paths(k):
+                    q = tmp.fresh("fault_%d.h5" % k)
+                    paths.append(q)
+                    holders[-1].save_h5(q)
+                    return q
+
+                def fault_verify(q):
+                    lf = ThetaHolder.load_h5(q)
+                    msgs = [_same_theta(a, b) for a, b in zip(holders[0].thetas, lf.thetas)]
+                    require(len(lf.thetas) == len(holders[0].thetas) and all(m_ is None for m_ in msgs), "save_under_faults", lambda: "save_h5 returned normally although one of its write requests failed (disk full), and the file does not hold the collection that was saved: %r" % ([m_ for m_ in msgs if m_][:1],))
+
+                iofault.save_under_faults(holders[0].save_h5, fault_verify, fault_paths, require, "save_under_faults", "ThetaHolder.save_h5", points=range(case["order_seed"] % 4, 200, 4))
             rng = np.random.default_rng(case["order_seed"])
             order = [int(i) for i in rng.permutation(len(files))]
             parts = [ThetaHolder.load_h5(files[i]) for i in order]
